@@ -15,5 +15,5 @@ CONSTANTS
   DevGCDropsEdge = TRUE
   DevNoReloadOpenBatch = FALSE
   DevKeyByBlockTs = FALSE
-INVARIANTS AbsIter AbsLastUpdated AbsAgree
+INVARIANTS AbsAll
 CHECK_DEADLOCK FALSE
